@@ -35,7 +35,8 @@ Sends(out) == SelectSeq(out, LAMBDA x : x.k = "send")
 TapeOf(e) ==
     LET S == Sends(e.out) IN
     [sends |-> [i \in DOMAIN S |-> [dst |-> S[i].dst, mem |-> S[i].d.mem, items |-> S[i].d.items]],
-     order |-> IF HasField(e.hook, "order") THEN IdsOf(e.hook.order) ELSE <<>>]
+     order |-> IF HasField(e.hook, "order") THEN IdsOf(e.hook.order) ELSE <<>>,
+     pind |-> IF HasField(e.hook, "probe") THEN e.hook.probe.ind ELSE <<>>]
 
 \* a datagram built by the specification against the parsed observed one
 DgMatches(s, o) ==
